@@ -35,6 +35,46 @@ def _build_vssmon(work, variant='asan'):
     return vlib.compile_many(work, 'vssmon_plain', vss_sources(), ['-O0', '-g'])
 
 
+VARIANT_FLAGS = {'ndebug': ['-O2', '-g', '-DNDEBUG'],            # CMAKE_BUILD_TYPE=Release/RelWithDebInfo: assert() compiled out
+                 'unsigned-char': ['-O2', '-g', '-funsigned-char'],  # plain char is unsigned on ARM/AArch64/PowerPC Linux targets
+                 'clang-O2': ['-O2', '-g']}
+_cfg = {}
+_cfg_lock = __import__('threading').Lock()
+
+
+def build_variant(work, base, sources, v):
+    """base monitor ('vssmon' / 'canmon') in configuration v; None when it cannot be built (skipped, not judged)."""
+    with _cfg_lock:
+        key = (work.dir, base, v)
+        if key not in _cfg:
+            name = '%s_%s' % (base, v.replace('-', '_'))
+            try:
+                if v == 'ilp32':
+                    _cfg[key] = vlib.compile_ilp32(work, name, sources)
+                elif v == 'msan':
+                    _cfg[key] = vlib.compile_msan(work, name, sources)
+                else:
+                    _cfg[key] = vlib.compile_many(work, name, sources, VARIANT_FLAGS[v], cc='clang' if v.startswith('clang') else 'gcc')
+            except vlib.HarnessError:
+                _cfg[key] = None
+        return _cfg[key]
+
+
+def config_variants(obs, work, base, sources, jobs, seed, variants=('ilp32', 'ndebug', 'unsigned-char', 'msan')):
+    """The same monitor in other build configurations a user may choose: freestanding 32-bit (size_t, pointers and long are
+    32 bits wide), -DNDEBUG, unsigned plain char, and under clang MemorySanitizer."""
+    bins = vlib.run_parallel(lambda v: (v, build_variant(work, base, sources, v)), variants, workers=len(variants))
+    for v, b in bins:
+        vlib.run_variant(obs, b, [dict(j, VP_CANARY=1, VP_NULLEMPTY=1) for j in jobs], seed, v)
+
+
+def ilp32_variant(obs, work, mode, cases, seed, places=(0, 3)):
+    nt0 = obs.stats.get('nontrivial', 0)
+    config_variants(obs, work, 'vssmon', vss_sources(),
+                    [dict(VP_MODE=mode, VP_CASES=cases, VP_FIRST=i * cases, VP_SEED=int(seed) + 31, VP_PLACE=pl) for i, pl in enumerate(places)], seed)
+    obs.stats['nontrivial'] = nt0
+
+
 def run_split(obs, binary, mode, total_cases, seed, nproc=16, extra=None, wrapper=None, timeout=1800):
     chunk = max(1, total_cases // nproc)
     jobs = []
@@ -73,7 +113,7 @@ def c06(tier, seed):
         nseeds = 8 if tier == 'quick' else 64
         jobs = [dict(VP_SEED=int(seed) * 100 + i, VP_REPS=R, VP_PLACE=i % 8) for i in range(nseeds)]
         vlib.run_parallel(lambda e: vlib.run_monitor(obs, b, e, tag='can'), jobs)
-        vlib.run_variant(obs, vlib.compile_ilp32(work, 'canmon_ilp32', can_sources()), [dict(VP_SEED=int(seed) + 77, VP_REPS=2, VP_PLACE=pl) for pl in (0, 2)], seed, 'ilp32')
+        config_variants(obs, work, 'canmon', can_sources(), [dict(VP_SEED=int(seed) + 77, VP_REPS=2, VP_PLACE=pl) for pl in (0, 2)], seed)
         cov = dict(distinct_nontrivial=int(obs.stats.get('nontrivial', 0)) // nseeds,
                    long_lengths_observed=int(obs.stats.get('can.long_lengths_observed', 0)),
                    long_lengths_model_mismatch=int(obs.stats.get('can.long_lengths_model_mismatch', 0)),
@@ -101,13 +141,14 @@ def c07(tier, seed):
         run_split(obs, b, 'encode', N, seed)
         # an unoptimised (Debug-style) build of the same sources: conversions the optimiser folds away exist only there
         run_split(obs, build_vssmon(work, 'plain'), 'encode', N // 4, int(seed) + 1, nproc=8, extra=dict(VP_CANARY=1))
+        ilp32_variant(obs, work, 'encode', 1500 if tier == 'quick' else 4000, seed, places=(0, 3) if tier == 'quick' else (0, 1, 3, 6))
         cov = dict(distinct_nontrivial=int(obs.stats.get('nontrivial', 0)),
                    rule='%d generated messages: address mode 0..3 x all 256 datatype codes (24 defined, reserved ones revisited less '
                         'often) x static ids {0,1,2^32-1,...} / interop paths of length classes {0..15 by residue, 255, 256, 257, '
                         'random <= 5000, 65533} x values (scalars: extremes, byte-lane markers, NaN payloads, +-0, subnormals, '
                         'infinities; strings/arrays of length classes 0,1,2,3,13,255..257, random, maximum whole-element count); header '
                         'fields, SetVssPath and SetVssData each followed by a whole-arena comparison with the reference encoding; a quarter of the '
-                        'corpus again in an unoptimised gcc -O0 build.  '
+                        'corpus again in an unoptimised gcc -O0 build and a few thousand messages in freestanding 32-bit (ILP32), -DNDEBUG, -funsigned-char and clang MemorySanitizer builds.  '
                         'Non-trivial: a value of non-zero encoded size was written and matched, or a reserved mode wrote nothing.' % N)
         return vlib.finish('C07', 'exploration', tier, seed, obs, cov, ASSUME, t0, min_evals=20000)
     finally:
@@ -124,6 +165,7 @@ def c08(tier, seed):
         for place in ([0, 1, 3, 6] if tier == 'quick' else range(8)):
             run_split(obs, b, 'decode', N // (4 if tier == 'quick' else 8), seed, nproc=16 if tier != 'quick' else 4, extra=dict(VP_PLACE=place))
         run_split(obs, build_vssmon(work, 'plain'), 'decode', N // 8, int(seed) + 1, nproc=8, extra=dict(VP_CANARY=1, VP_PLACE=5))
+        ilp32_variant(obs, work, 'decode', 1500 if tier == 'quick' else 4000, seed, places=(0, 5) if tier == 'quick' else (0, 1, 5, 6))
         if tier == 'thorough':
             memcheck(obs, work, 'decode', 1500, seed)
         cov = dict(distinct_nontrivial=int(obs.stats.get('nontrivial', 0)),
@@ -132,7 +174,8 @@ def c08(tier, seed):
                         '(message must stay unmodified), every 4th also library-encoded (round trip): path size, path, scalar '
                         'values bit-exact, two-call protocol for the 13 variable-length types (length query writes only the length, '
                         'copy phase writes exactly the reported bytes into an exact-extent destination, elements bit-exact).  Result '
-                        'objects live in an arena and are compared with a typed model.  Each message counts once as non-trivial.' % N)
+                        'objects live in an arena and are compared with a typed model.  An eighth of the corpus again in a gcc -O0 build, '
+                        'a few thousand messages in freestanding 32-bit (ILP32), -DNDEBUG, -funsigned-char and clang MemorySanitizer builds.  Each message counts once as non-trivial.' % N)
         return vlib.finish('C08', 'exploration', tier, seed, obs, cov, ASSUME, t0, min_evals=20000)
     finally:
         work.cleanup()
@@ -147,12 +190,16 @@ def c09(tier, seed):
         R = 6 if tier == 'quick' else 150
         jobs = [dict(VP_MODE='pad', VP_CASES=R, VP_SEED=int(seed) * 100 + i, VP_PLACE=i % 8) for i in range(8 if tier == 'quick' else 64)]
         vlib.run_parallel(lambda e: vlib.run_monitor(obs, b, e, tag='pad'), jobs)
+        nt0 = int(obs.stats.get('nontrivial', 0))
+        ilp32_variant(obs, work, 'pad', 3, seed, places=(0, 1) if tier == 'quick' else (0, 1, 2, 3))
+        obs.stats['nontrivial'] = nt0
         cov = dict(distinct_nontrivial=int(obs.stats.get('nontrivial', 0)) // len(jobs), exhaustive=True,
                    rule='exhaustive message length 12..2044 x prior contents {all 0xFF, zero body + 0xFF tail, %d random} x %d '
                         '(seed, byte offset) runs: after Avtp_Vss_Pad the 200 KiB arena must equal the model (length field = '
-                        'ceil(n/4), pad field = (4-n%%4)%%4, bytes [n, n+pad) zero, nothing else); all 512 length values through the '
+                        'ceil(n/4), pad field = (4-n%%4)%%4, bytes [n, n+pad) zero, nothing else); every length also in a buffer of exactly the padded size in front of an inaccessible page and, under ASan, in an exact-size heap block (nothing behind the pad bytes may be touched, not even rewritten with the same value); all 512 length values through the '
                         'dedicated setter/getter vs the generic accessors on 3 backgrounds.  distinct_nontrivial = distinct lengths + '
-                        'distinct length-field values.' % (R - 2, len(jobs)))
+                        'distinct length-field values.  '
+                        'The same sweep (3 backgrounds, 2-4 offsets) in freestanding 32-bit (ILP32), -DNDEBUG, -funsigned-char and clang MemorySanitizer builds.' % (R - 2, len(jobs)))
         return vlib.finish('C09', 'exploration', tier, seed, obs, cov, ASSUME[1:3], t0, min_evals=10000)
     finally:
         work.cleanup()
@@ -166,6 +213,7 @@ def c10(tier, seed):
         b = build_vssmon(work)
         N = 6400 if tier == 'quick' else 1600000
         run_split(obs, b, 'strarr', N, seed, nproc=32 if tier == 'quick' else 64)
+        ilp32_variant(obs, work, 'strarr', 150 if tier == 'quick' else 400, seed, places=(0, 1))
         if tier == 'thorough':
             memcheck(obs, work, 'strarr', 300, seed)
         cov = dict(distinct_nontrivial=int(obs.stats.get('nontrivial', 0)),
@@ -174,7 +222,7 @@ def c10(tier, seed):
                         'and compared with the reference concatenation; counted; unpacked from an exact-extent copy of the reference '
                         'packing with requested counts {0, n-1, n, n+1, n+7, n+8} in lengths-only and copy phases (exact-extent '
                         'destinations); string objects and the pointer array live in an arena (objects beyond the packed count must '
-                        'stay untouched).  Each list counts once as non-trivial.' % N)
+                        'stay untouched); a few hundred lists in freestanding 32-bit (ILP32), -DNDEBUG, -funsigned-char and clang MemorySanitizer builds.  Each list counts once as non-trivial.' % N)
         return vlib.finish('C10', 'exploration', tier, seed, obs, cov, ASSUME, t0, min_evals=20000)
     finally:
         work.cleanup()
